@@ -25,8 +25,15 @@ Section BFS.
                  end
         end
     end.
+  (* number of pops the walk makes below an entry of height h (level by level); used as the fuel *)
+  Fixpoint bfs_cost (h : nat) (x : N) : nat :=
+    match h with
+    | O => 1
+    | S h' => S (list_sum (map (bfs_cost h') (snd (step x))))
+    end.
 End BFS.
 Arguments bfs {N R} step fuel q.
+Arguments bfs_cost {N R} step h x.
 
 Definition zlen {B} (l : list B) : Z := Z.of_nat (length l).
 
@@ -38,6 +45,18 @@ Fixpoint res_concat {B} (l : list (res (list B))) : res (list B) :=
   end.
 
 Fixpoint zrange (a : Z) (n : nat) : list Z := match n with O => [] | S n' => a :: zrange (a + 1) n' end.
+
+(* apply f to the LAST element only (the edge node the GO mutation / the builder descends into) *)
+Definition map_last {B} (f : B -> res B) : list B -> res (list B) :=
+  fix go (l : list B) : res (list B) :=
+    match l with
+    | [] => Err "IndexError"
+    | c :: l' =>
+        match l' with
+        | [] => match f c with Ok c' => Ok [c'] | Err e => Err e end
+        | _ => match go l' with Ok r => Ok (c :: r) | Err e => Err e end
+        end
+    end.
 
 Section Hier.
   Variable A : Type.
@@ -210,7 +229,8 @@ Section Hier.
     | Leaf _ ls => (map (fun v => snd x ++ [v]) ls, [])
     | Node _ ls ks => ([], map (fun lk => (snd lk, snd x ++ [fst lk])) (combine ls ks))
     end.
-  Definition M_iter (t : level) : res (list (list A)) := bfs iter_step (node_count t) [(t, [])].
+  Definition M_iter (t : level) : res (list (list A)) :=
+    bfs iter_step (bfs_cost iter_step (pred (lv_depth t)) (t, [])) [(t, [])].
 
   (* ---- label_widths_at_depth / index_array_at_depth (index_level.py:255, 334): deque of (level, depth) *)
   Definition at_depth_step {R} (emit : level -> list R) (target : nat) (x : level * nat)
@@ -239,13 +259,15 @@ Section Hier.
     | Node _ ls ks => widths_go ls ks 0
     end.
 
-  Definition M_widths (t : level) (d : nat) : res (list (A * Z)) :=
-    bfs (at_depth_step get_widths d) (node_count t) [(t, O)].
+  Definition walk_at_depth {R} (emit : level -> list R) (t : level) (d : nat) : res (list R) :=
+    bfs (at_depth_step emit d) (bfs_cost (at_depth_step emit d) d (t, O)) [(t, O)].
+
+  Definition M_widths (t : level) (d : nat) : res (list (A * Z)) := walk_at_depth get_widths t d.
 
   (* IndexLevel.values_at_depth (index_level.py:631) *)
   Definition M_values_at_depth (t : level) (d : nat) : res (list A) :=
     if Nat.eqb (S d) (lv_depth t)
-    then match bfs (at_depth_step (fun n => [lv_labels n]) d) (node_count t) [(t, O)] with
+    then match walk_at_depth (fun n => [lv_labels n]) t d with
          | Ok arrays => Ok (concat arrays)
          | Err e => Err e
          end
@@ -348,7 +370,7 @@ Section Hier.
     end.
 
   (* ---- IndexLevel.loc_to_iloc, HLoc branch (index_level.py:499-563): deque of (level, depth, offset) *)
-  Definition hloc_step (key : list sel) (x : level * nat * Z) : list (res part) * list (level * nat * Z) :=
+  Definition hloc_step (key : list sel) (x : level * nat * Z) : list (option part) * list (level * nat * Z) :=
     let t := fst (fst x) in
     let d := snd (fst x) in
     let next := snd x + lv_off t in
@@ -356,19 +378,22 @@ Section Hier.
               | SMask bs => SMask (firstn (Z.to_nat (lv_len t)) (skipn (Z.to_nat next) bs))
               | s => s
               end in
+    (* `except KeyError: pass`; LocInvalid (a slice end that is no label here) propagates: None *)
+    let skip_or_raise (e : string) : list (option part) * list (level * nat * Z) :=
+        if String.eqb e "KeyError" then ([], []) else ([None], []) in
     match t with
     | Leaf _ ls =>
         match M_locmap ls dk (Some next) with
-        | Ok p => ([Ok p], [])
-        | Err e => if String.eqb e "KeyError" then ([], []) else ([Err e], [])
+        | Ok p => ([Some p], [])
+        | Err e => skip_or_raise e
         end
     | Node _ ls ks =>
         match dk with
-        | SMask _ => ([Err "OutsideModel"], [])      (* Boolean array at an outer depth: outside the claim *)
+        | SMask _ => ([None], [])      (* Boolean array at an outer depth: outside the claim, not modelled *)
         | _ =>
             match M_locmap ls dk None with
             | Ok p => ([], map (fun k => (k, S d, next)) (select_kids ks p))
-            | Err e => if String.eqb e "KeyError" then ([], []) else ([Err e], [])
+            | Err e => skip_or_raise e
             end
         end
     end.
@@ -383,27 +408,48 @@ Section Hier.
                     end
     end.
 
+  Definition is_none {B} (o : option B) : bool := match o with None => true | Some _ => false end.
+  Definition somes {B} (l : list (option B)) : list B :=
+    flat_map (fun o => match o with Some x => [x] | None => [] end) l.
+
+  (* what the collected parts become: `iloc_count == 0 -> KeyError`, one part and no multiple key -> as is,
+     else the flat list (the range of part.indices(len) for slices) *)
+  Definition hloc_finish (total : Z) (key : list sel) (outs : list (option part)) : res (bool * list Z) :=
+    if existsb is_none outs then Err "KeyError"
+    else
+      let parts := somes outs in
+      match parts with
+      | [] => Err "KeyError"
+      | _ =>
+          match res_concat (map (part_flat total) parts) with
+          | Err e => Err e
+          | Ok ps =>
+              Ok (match parts with
+                  | [PInt _] => negb (existsb sel_multiple key)
+                  | _ => false
+                  end, ps)
+          end
+      end.
+
   Definition M_hloc (t : level) (key : list sel) : res (bool * list Z) :=
-    match bfs (hloc_step key) (node_count t) [(t, O, 0)] with
+    match bfs (hloc_step key) (bfs_cost (hloc_step key) (pred (lv_depth t)) (t, O, 0)) [(t, O, 0)] with
     | Err e => Err e
-    | Ok rparts =>
-        match res_all rparts with
-        | Err e => Err (if String.eqb e "LocInvalid" then "KeyError"%string else e)
-        | Ok parts =>
-            match parts with
-            | [] => Err "KeyError"
-            | _ =>
-                match res_concat (map (part_flat (lv_len t)) parts) with
-                | Err e => Err e
-                | Ok ps =>
-                    Ok (match parts with
-                        | [PInt _] => negb (existsb sel_multiple key)
-                        | _ => false
-                        end, ps)
-                end
-            end
-        end
+    | Ok outs => hloc_finish (lv_len t) key outs
     end.
+
+  (* ---- the guard of the refinement theorem hloc_exact (what the property's quantifier admits and the
+          code handles): Boolean arrays only at the innermost depth and of the index length; no half-open
+          label slice at the innermost depth (finding C05-hloc-open-leaf-slice); no more selectors than depths *)
+  Definition sel_guard (inner : bool) (total : nat) (s : sel) : bool :=
+    match s with
+    | SMask bs => inner && Nat.eqb (length bs) total
+    | SSlice a b =>
+        if inner then match a, b with None, None => true | Some _, Some _ => true | _, _ => false end
+        else true
+    | _ => true
+    end.
+  Definition key_guard (D total : nat) (key : list sel) : bool :=
+    forallb (fun d => sel_guard (Nat.eqb (S d) D) total (sel_at key d)) (seq 0 D) && (length key <=? D)%nat.
 
   (* ---- grow-only mutation *)
   (* the single-path subtree created for the not-yet-present tail of a key *)
@@ -435,15 +481,7 @@ Section Hier.
             if mem k ls then
               if strict && negb (last_is k ls) then Err bad
               else
-                match (fix go (l : list level) : res (list level) :=
-                         match l with
-                         | [] => Err "IndexError"
-                         | c :: l' =>
-                             match l' with
-                             | [] => match ins strict c key' with Ok c' => Ok [c'] | Err e => Err e end
-                             | _ => match go l' with Ok r => Ok (c :: r) | Err e => Err e end
-                             end
-                         end) ks with
+                match map_last (fun c => ins strict c key') ks with
                 | Ok ks' => Ok (Node o ls ks')
                 | Err e => Err e
                 end
@@ -460,7 +498,11 @@ Section Hier.
     | [] => Err "Empty"
     | r :: rest =>
         if (length r <? 2)%nat then Err "ErrorInitIndex"
-        else fold_left (fun acc row => match acc with Ok t => ins true t row | Err e => Err e end)
+        else fold_left (fun acc row => match acc with
+                                       | Ok t => if Nat.eqb (length row) (length r) then ins true t row
+                                                 else Err "ErrorInitIndex"      (* `Inconsistent label depth` *)
+                                       | Err e => Err e
+                                       end)
                        rest (Ok (chain r))
     end.
 
@@ -533,6 +575,25 @@ Section Hier.
 
   Definition wf (h : nat) (t : level) : bool :=
     (lv_off t =? 0) && uniform h t && offsets_ok t && labels_ok t.
+
+  (* ---- guards of the growth theorems: a key is admitted when the from_labels builder admits it (this
+          excludes exactly the input class of finding C05-append-last-edge, where IndexLevelGO.append goes on
+          although the builder rejects); an extension when extend succeeds on a well-formed operand *)
+  Definition is_ok {B} (r : res B) : bool := match r with Ok _ => true | Err _ => false end.
+  Definition op_dom (h : nat) (t : level) (o : op) : bool :=
+    match o with
+    | OAppend k => Nat.eqb (length k) (S h) && is_ok (ins true t k)
+    | OExtend u => uniform h u && offsets_ok u && labels_ok u && is_ok (M_extend t u)
+    | ORead => true
+    end.
+  Fixpoint hist_dom (h : nat) (st : ihgo) (ops : list op) : bool :=
+    match ops with
+    | [] => true
+    | o :: ops' => op_dom h (g_tree st) o && hist_dom h (go_step st o) ops'
+    end.
+  (* the tuples an operation adds *)
+  Definition op_rows (o : op) : list (list A) :=
+    match o with OAppend k => [k] | OExtend u => flatten u | ORead => [] end.
 End Hier.
 
 Arguments Leaf {A} off labels.
@@ -563,6 +624,7 @@ Arguments at_depth_step {A R} emit target x.
 Arguments widths_go {A} ls ks trav.
 Arguments get_widths {A} t.
 Arguments M_widths {A} t d.
+Arguments walk_at_depth {A R} emit t d.
 Arguments M_values_at_depth {A} t d.
 Arguments M_blocks {A} t.
 Arguments select_kids {A} ks p.
